@@ -123,6 +123,9 @@ def evaluate(ctx, cases):
     outs = ctx.driver.run(reqs, jobs=ctx.jobs)
     loop = asyncio.new_event_loop()
     try:
+        if not getattr(ctx, "_file_docs_done", False):
+            ctx._file_docs_done = True
+            _file_documents(ctx, loop)
         batch = []
         for (c, compiled), m in zip(meta, outs):
             doc, extra = c["doc"], c.get("ctx") or {}
@@ -179,6 +182,40 @@ def evaluate(ctx, cases):
 
 SHARED_QUERIES = ["$.items[?@.v < $.limit]", "$.items[?@.v < $.limit].v", "$.items[?@.v == _.v || @.v > $.limit]", "$.items[?$.flag && @.v]", "$..[?@.v >= $.limit]",
                   "$.items[?count($.items[*]) > @.v]", "$.items[?@.v in $.allowed]", "$.items[?@.v < $.limit] | $.items[?@.v > $.limit]"]
+
+
+def _file_documents(ctx, loop):
+    """Documents given as file-like objects (text and bytes; valid JSON, JSON in the encodings json detects, and text that is
+    not JSON with and without brackets) through the environment-level and the compiled entry points: the asynchronous call
+    returns what the synchronous one returns, or raises the same kind of error."""
+    import io
+    import json
+    import jsonpath
+    good = {"a": [1, 2, {"b": "é"}], "k": "x"}
+    contents = [("valid", json.dumps(good)), ("valid, non-ASCII raw", json.dumps(good, ensure_ascii=False)), ("string value", json.dumps("[1, 2]")), ("number", "5"),
+                ("not JSON, no bracket", "not json at all"), ("empty", ""), ("truncated word", "tru"), ("two values", "1 2"), ("malformed", '{"a": [1'), ("blank-padded", "\n " + json.dumps(good) + "\n")]
+    makers = []
+    for name, txt in contents:
+        makers.append((name + " / StringIO", lambda txt=txt: io.StringIO(txt)))
+        makers.append((name + " / BytesIO", lambda txt=txt: io.BytesIO(txt.encode("utf-8"))))
+    makers.append(("valid / BytesIO UTF-8 BOM", lambda: io.BytesIO(b"\xef\xbb\xbf" + json.dumps(good).encode())))
+    makers.append(("valid / BytesIO UTF-16", lambda: io.BytesIO(json.dumps(good, ensure_ascii=False).encode("utf-16"))))
+    makers.append(("undecodable / BytesIO", lambda: io.BytesIO(b"\xff\xfe\xff")))
+    for text in ("$", "$.a[*]", "$..b", "$.a[*] | $.k", "$[?@ == 'x']"):
+        compiled = jsonpath.compile(text)
+        for name, mk in makers:
+            ctx.count("file-documents")
+            pairs = [("jsonpath.findall", lambda: jsonpath.findall(text, mk()), lambda: loop.run_until_complete(jsonpath.findall_async(text, mk()))),
+                     ("jsonpath.finditer", lambda: [m.obj for m in jsonpath.finditer(text, mk())], lambda: [m.obj for m in loop.run_until_complete(_collect(jsonpath.finditer_async(text, mk())))]),
+                     ("compiled.findall", lambda: compiled.findall(mk()), lambda: loop.run_until_complete(compiled.findall_async(mk()))),
+                     ("compiled.finditer", lambda: [m.obj for m in compiled.finditer(mk())], lambda: [m.obj for m in loop.run_until_complete(_collect(compiled.finditer_async(mk())))])]
+            for ep, fs, fa in pairs:
+                s, a = core.outcome(fs), core.outcome(fa)
+                ns = [core.canon(x) for x in s["ok"]] if "ok" in s else {"err": s["err"]}
+                na = [core.canon(x) for x in a["ok"]] if "ok" in a else {"err": a["err"]}
+                if ns != na:
+                    ctx.violation("on a file-like document the asynchronous call must return what the synchronous call returns, or raise the same kind of error",
+                                  {"text": text, "document": name, "entry_point": ep}, na, ns)
 
 
 def _one_query_many_documents(ctx, loop):
